@@ -7,7 +7,7 @@ names="$@"; [ -z "$names" ] && names=$(ls seeded | grep -E '^(C[0-9]+-[hvyx]|H[0
 for n in $names; do
   git -C /repo apply /verif/seeded/$n/patch.diff 2>/dev/null || { echo -e "$n\tapply-failed"; continue; }
   alarms=""
-  for i in $(seq -w 1 20); do
+  for i in ${VERIF_HARMLESS_CHECKS:-$(seq -w 1 20)}; do
     out=$(./check C$i 2>&1); rc=$?
     if [ $rc -ne 0 ]; then
       b=$(echo "$out" | grep -E "^BROKEN" | head -2 | cut -c1-160 | tr '\n' ';')
@@ -16,6 +16,6 @@ for n in $names; do
     fi
   done
   git -C /repo checkout -- . && git -C /repo clean -fdq
-  [ -z "$alarms" ] && alarms="quiet on all 20"
+  [ -z "$alarms" ] && alarms="quiet on all ${VERIF_HARMLESS_CHECKS:-20}"
   echo -e "$n\t$alarms"
 done
